@@ -219,11 +219,12 @@ impl VBuf {
     pub uninterp spec fn view(&self) -> Seq<u8>;
     #[verifier::external_body]
     pub fn len(&self) -> (r: usize) ensures r == self@.len() { unimplemented!() }
-    /// `buf.iter().position(|b| *b == b'\0')`
+    /// `buf.iter().position(|&b| b == X)` (REAL contract of `Iterator::position` with that predicate): index of the
+    /// first byte equal to X in the WINDOW, `None` when the window has none -- nothing about what lies behind it
     #[verifier::external_body]
-    pub fn position_nul(&self) -> (r: Option<usize>)
-        ensures r matches Some(i) ==> i < self@.len() && self@[i as int] == 0u8 && forall|k: int| 0 <= k < i ==> self@[k] != 0u8,
-            r is None ==> forall|k: int| 0 <= k < self@.len() ==> self@[k] != 0u8,
+    pub fn position_eq(&self, x: u8) -> (r: Option<usize>)
+        ensures r matches Some(i) ==> i < self@.len() && self@[i as int] == x && forall|k: int| 0 <= k < i ==> self@[k] != x,
+            r is None ==> forall|k: int| 0 <= k < self@.len() ==> self@[k] != x,
     { unimplemented!() }
     /// `buf[..n].to_vec()`
     #[verifier::external_body]
@@ -266,6 +267,7 @@ proof fn lemma_nul_at(c: Seq<u8>, from: int)
 
 impl BigBedRead {
 //@extract method bigtools/src/bbi/bigbedread.rs autosql "^impl<R: BBIFileRead> BigBedRead<R>"
+//@presub /\s+\.(?=[a-z_0-9])/ => . min=0
 //@rule R15
 //@rule R16
 //@sub /Result<Option<String>, BBIReadError>/ => Result<Option<Text>, BBIReadError> min=1
@@ -273,9 +275,9 @@ impl BigBedRead {
 //@sub /let mut reader = BufReader::new\(reader\);\n/ => "" min=0
 //@sub /reader\.seek\(SeekFrom::Start\(([^;]*)\)\)\?;/ => reader.seek_start(\1)?; min=0
 //@sub /reader\.read_until\(b'\\0', &mut (\w+)\)\?;/ => reader.read_until_nul(&mut \1)?; min=0
-//@sub /(\w+)\.iter\(\)\.position\(\|(\w+)\| \*\2 == b'\\0'\)/ => \1.position_nul() min=0
+//@sub /(\w+)\.iter\(\)\.position\(\|(?:&(\w+)\| \2|(\w+)\| \*\3) == (b'(?:\\.|[^'\\])'|\d+(?:u8)?)\)/ => \1.position_eq(\4) min=0
 //@sub /(\w+)\[\.\.([^\]]+)\]\.to_vec\(\)/ => \1.prefix_to_vec(\2) min=0
-//@sub /String::from_utf8\((\w+)\)\s*\.map_err\(\|_\| (BBIReadError::InvalidFile)\("([^"]*)"\.to_owned\(\)\)\)\?/ => (match string_from_utf8(\1) { Ok(t__) => t__, Err(_) => return Err(\2(err_text("\3"))) }) min=0
+//@sub /String::from_utf8\(((?:[^()]|\((?:[^()]|\([^()]*\))*\))*)\)\s*\.map_err\(\|_\| (BBIReadError::InvalidFile)\("([^"]*)"\.to_owned\(\)\)\)\?/ => (match string_from_utf8(\1) { Ok(t__) => t__, Err(_) => return Err(\2(err_text("\3"))) }) min=0
 //@ret r
 //@sig
     requires
@@ -300,8 +302,12 @@ impl BigBedRead {
 //@at /let autosql = / before optional
         proof {
             let c = self.read.content(); let o = self.info.header.auto_sql_offset as int;
-            lemma_nul_at(c, o);
-            if nul_at(c, o) < c.len() { assert(buffer@ =~= c.subrange(o, nul_at(c, o))); } [[L: autosql/buffer_holds_the_text_without_its_terminating_nul]]
+            // (a hint, guarded so that it states nothing about a `buffer` that is something else after an edit, e.g. one
+            // fill_buf window: then the postconditions decide)
+            if 0 <= o <= c.len() {
+                lemma_nul_at(c, o);
+                if nul_at(c, o) < c.len() && buffer@.len() == nul_at(c, o) - o { assert(buffer@ =~= c.subrange(o, nul_at(c, o))); } [[L: autosql/buffer_holds_the_text_without_its_terminating_nul]]
+            }
         }
 //@end
 }
